@@ -95,6 +95,9 @@ enum Step {
     /// the node is down (all its connections gone, nothing listening) WHILE the keyspace is set, and comes back
     /// afterwards: its re-established connections must not carry requests before the keyspace is set on them
     DownUseUp(usize, &'static str),
+    /// the keyspace is set by EXECUTING a `USE` statement (quoted = case-sensitive name) instead of calling
+    /// `use_keyspace`: the driver learns it from the SET_KEYSPACE result and propagates it to its connections
+    UseStatement(&'static str, bool),
     Use(&'static str, bool),
     Kill(usize),
     Restart(usize),
@@ -198,6 +201,15 @@ async fn run_hist(h: &Hist) -> HistOut {
                         c.close(how);
                     }
                 }
+            }
+            Step::UseStatement(name, quoted) => {
+                let op = next_op();
+                call(&log, op, "use_keyspace", if *quoted { format!("\"{name}\"") } else { name.to_string() });
+                let text = if *quoted { format!("USE \"{name}\"") } else { format!("USE {name}") };
+                let r = tokio::time::timeout(Duration::from_secs(20), session.query_unpaged(text, ())).await;
+                let ok = matches!(r, Ok(Ok(_)));
+                ret(&log, op, ok, format!("{:?}", r.map(|x| x.map(|_| ()))));
+                out.use_results.push((op, name.to_string(), ok));
             }
             Step::DownUseUp(n, name) => {
                 cluster.stop_node(*n, CloseHow::Rst);
@@ -363,6 +375,11 @@ fn gen_hist(rng: &mut Rng, seed: u64) -> Hist {
             7 => Step::Restart(rng.below(2) as usize),
             8 => Step::AddNode,
             9 => Step::UseFailing(names[rng.below(3) as usize]),
+            11 if rng.chance(1, 3) => match rng.below(3) {
+                0 => Step::UseStatement("Ks3", true),
+                1 => Step::UseStatement("KS2", false), // resolves to ks2
+                _ => Step::UseStatement(names[rng.below(3) as usize], rng.bool()),
+            },
             11 if rng.chance(1, 2) => Step::DownUseUp(rng.below(2) as usize, names[rng.below(3) as usize]),
             10 if rng.chance(1, 3) => Step::UseSlow(names[rng.below(3) as usize], rng.below(2) as usize),
             _ => Step::Pause(5 + rng.below(60)),
@@ -479,6 +496,10 @@ pub fn run(ctx: &Ctx) -> Outcome {
                     Step::Use(leak(it.next().unwrap_or("ks")), it.next() == Some("true"))
                 }
                 "UseFailing" => Step::UseFailing(leak(inner)),
+                "UseStatement" => {
+                    let mut it = inner.split(", ");
+                    Step::UseStatement(leak(it.next().unwrap_or("ks")), it.next() == Some("true"))
+                }
                 "DownUseUp" => {
                     let mut it = inner.split(", ");
                     let n = it.next().and_then(|x| x.parse().ok()).unwrap_or(1);
@@ -535,7 +556,7 @@ pub fn run(ctx: &Ctx) -> Outcome {
         }
     }
     rt.block_on(validation(&mut out, ctx));
-    for c in ["keyspace-given-to-session-builder", "step:Use", "step:Kill", "step:Restart", "step:AddNode", "step:UseFailing", "step:UseSlow", "step:DownUseUp", "requests-on-connections-opened-after-use", "use:failed-on-some-connection", "name:valid", "name:invalid", "validation-part"] {
+    for c in ["keyspace-given-to-session-builder", "step:Use", "step:Kill", "step:Restart", "step:AddNode", "step:UseFailing", "step:UseSlow", "step:DownUseUp", "step:UseStatement", "requests-on-connections-opened-after-use", "use:failed-on-some-connection", "name:valid", "name:invalid", "validation-part"] {
         out.require_class(c);
     }
     out
